@@ -691,7 +691,7 @@ theorem forceclose_keeps_committed (ops : List FwdClose.Op) :
   cases hn : FwdClose.neverSent s
   · rfl
   · have := FwdClose.neverSent_cannot_claim I hn
-    simp [hd] at this
+    exact absurd (hd.symm.trans this) (by decide)
 
 /-- **forceclose_fails_back_what_never_left.** Conversely an HTLC that never left the node IS failed backwards by the
     force-close (the `ChannelMonitor` does not know it, nobody else would ever resolve it). -/
@@ -717,19 +717,19 @@ theorem forceclose_observation_consistent (ops : List FwdClose.Op) (cHas bHas : 
       cases cHas
       · rfl
       · rcases hcH rfl with h | h
-        · simp [u1] at h
+        · exact absurd (u1.symm.trans h) (by decide)
         · exact absurd h u2
     have b0 : bHas = false := by
       cases bHas
       · rfl
-      · have := hbH rfl; simp [u3] at this
+      · exact absurd (u3.symm.trans (hbH rfl)) (by decide)
     simp [FwdClose.Seen.consistent, FwdClose.neverSent, hp, c0, b0]
   · intro hp
     obtain ⟨l1, l2, -, l4, -⟩ := I.la hp
     have b0 : bHas = false := by
       cases bHas
       · rfl
-      · have := hbH rfl; simp [l1] at this
+      · exact absurd (l1.symm.trans (hbH rfl)) (by decide)
     simp only [FwdClose.Seen.consistent, FwdClose.neverSent, hp, b0]
     cases hh : (s.held == some true)
     · simp
@@ -738,7 +738,7 @@ theorem forceclose_observation_consistent (ops : List FwdClose.Op) (cHas bHas : 
         cases cHas
         · rfl
         · rcases hcH rfl with h | h
-          · simp [l4 hh'] at h
+          · exact absurd ((l4 hh').symm.trans h) (by decide)
           · exact absurd h l2
       simp [c0]
 
